@@ -1648,7 +1648,9 @@ func (p *parser) primaryExpression() (Node, error) {
 			return nil, err
 		}
 
-		child, err := p.expression(precedence(lexer.AddToken))
+		// a sign binds tighter than every binary operator: its operand ends
+		// before a multiplicative operator, +a * b is (+a) * b
+		child, err := p.expression(precedence(lexer.MultiplyToken))
 		if err != nil {
 			return nil, err
 		}
@@ -1861,7 +1863,8 @@ func (p *parser) primaryExpression() (Node, error) {
 			return nil, err
 		}
 
-		child, err := p.expression(precedence(lexer.SubtractToken))
+		// as for the unary plus: a / -b / c is (a / (-b)) / c
+		child, err := p.expression(precedence(lexer.MultiplyToken))
 		if err != nil {
 			return nil, err
 		}
